@@ -7,6 +7,13 @@ let () = main (fun u k -> match k with
   | "enthalpy" ->
     let t = fl () in let sp = lst species in let nd = lst fl in let e0 = lst fl in let de = lst fl in
     out_floats [enthalpy num u t sp nd e0 de]
+  | "heat_capacity" ->
+    (* T d Hlo Hhi -> cp | default step | the temperatures at which the model asks its enthalpy oracle (ascending) *)
+    let t = fl () in let d = fl () in let hlo = fl () in let hhi = fl () in
+    let seen = ref [] in
+    let h x = (seen := x :: !seen; if x < t then hlo else hhi) in
+    let cp = heat_capacity num h t d in
+    out_floats ([cp; heat_capacity_default_delta num] @ Stdlib.List.sort compare !seen)
   | "refenergy" ->
     let t = fl () in let p = fl () in let sp = lst species in let ni = lst fl in
     let (e0, de) = reference_energies num u t p sp ni in
